@@ -169,8 +169,8 @@ CHECKS = {
     },
     "C02": {
         "extra_props": ["Props/Comb_F.v", "Props/MapFut_D.v"],
-        "modules": ["p_c02m", "p_c02c", "p_c02p", "p_c02x"],
-        "rule": "p_c02x: random expression trees (depth <= 3) over f_map / f_flat_map / f_proxy / f_nocancel / f_timeout / f_zip / f_or / f_and on 1-4 environment futures completed with values or exceptions in any order (monitor only: root done, outcome allowed by the tree's sequential meaning, waiters released); p_c02p: the C08 scenario family on PollExecutor plus 1-3 user done-callbacks per poll future (monitor only); library futures: the C13 scenario family (MapFuture/FlatMapFuture over environment futures; done-callbacks that may raise, "
+        "modules": ["p_c02m", "p_c02c", "p_c02p", "p_c02x", "p_c02t", "p_c02r"],
+        "rule": "p_c02t / p_c02r: the Throttle and Retry lockstep families (cancel() of queued / in-flight futures racing with hand-over and completion) with their protocol verdicts; p_c02x: random expression trees (depth <= 3) over f_map / f_flat_map / f_proxy / f_nocancel / f_timeout / f_zip / f_or / f_and on 1-4 environment futures completed with values or exceptions in any order (monitor only: root done, outcome allowed by the tree's sequential meaning, waiters released); p_c02p: the C08 scenario family on PollExecutor plus 1-3 user done-callbacks per poll future (monitor only); library futures: the C13 scenario family (MapFuture/FlatMapFuture over environment futures; done-callbacks that may raise, "
                 "added before/after completion; 0-2 cancels) plus 0-3 threads blocked in result()/exception()/wait()/as_completed() with a "
                 "virtual timeout; combinator outputs: the C14/C15 family plus 1-3 waiters; every history replayed on Model/MapFut.v / "
                 "Model/Comb.v; monitor: outcome seen by every callback = final outcome, callbacks exactly once and only when done, cancel() "
